@@ -59,18 +59,15 @@ theorem printf_width_diverges_orig (fuel : Nat) (s : List Char) :
 
 /-! ## the characters are those ISO C printf produces -/
 
-/-
-  FULL STATEMENT (false on the tree, see the two `_witness` theorems):
-     ∀ fmt args out, isoFormat igrisPtr fmt args = some out →
-                      printf fmt args = .done out out.length
-  Proved part: every format/argument list outside the two recorded input
-  classes (`isoFormatExcl` is `isoFormat` made undefined on exactly those):
-    C06-alt-zero   `#` flag with a zero value: x, X with any precision; o when
-                   the effective precision is 1
-    C06-c-nul      %c of a NUL character
--/
-theorem printf_matches_iso_partial (fmt : List Char) (args : List Arg) (out : List Char)
-    (h : isoFormatExcl igrisPtr fmt args = some out) :
+/-- THE FULL STATEMENT (since the `fix:` commits 8be88bc and ff2efab of the
+extension round it holds without exclusion): for every format and argument list
+on which ISO C defines the output — `isoFormat … = some out` — `__printf` hands
+exactly those characters to the callback and returns their number (in
+particular: no fault, no wrong-type `va_arg`, every argument consumed as ISO
+says).  Which formats these are is the subject of `iso_defined_of_grammar`
+below. -/
+theorem printf_matches_iso (fmt : List Char) (args : List Arg) (out : List Char)
+    (h : isoFormat igrisPtr fmt args = some out) :
     printf fmt args = .done out out.length := by
   obtain ⟨pc, hl⟩ := loop_iso _ fmt args out h (fmt.length + 1) [] 0 (Nat.lt_succ_self _)
   have hl' : printf fmt args = .done out pc := by simpa [printf] using hl
@@ -81,22 +78,150 @@ theorem isoFormatExcl_sub (pfmt : Nat → List Char) (fmt : List Char) (args : L
     (h : isoFormatExcl pfmt fmt args = some out) : isoFormat pfmt fmt args = some out :=
   isoAux_strict_sub pfmt _ fmt args out h
 
-/-- C06-alt-zero: `%#x` of 0 — ISO `0`, igris `0x0` -/
+/-- the statement of the first round (outside the two input classes that were
+recorded findings then); now a corollary of `printf_matches_iso` -/
+theorem printf_matches_iso_partial (fmt : List Char) (args : List Arg) (out : List Char)
+    (h : isoFormatExcl igrisPtr fmt args = some out) :
+    printf fmt args = .done out out.length :=
+  printf_matches_iso fmt args out (isoFormatExcl_sub _ _ _ _ h)
+
+/-- former finding C06-alt-zero, `%#x` of 0: ISO `0`; print_i's prefix as it
+was (`pfxOrig`, chosen without looking at the value) is `0x`; the repaired code
+prints `0` -/
 theorem printf_matches_iso_witness_alt_zero :
     isoFormat igrisPtr "%#x".toList [.int 0] = some "0".toList ∧
-    printf "%#x".toList [.int 0] = .done "0x0".toList 3 := by
-  constructor <;> decide
+    pfxOrig { spec := true } 16 = "0x".toList ∧
+    printf "%#x".toList [.int 0] = .done "0".toList 1 := by
+  refine ⟨?_, ?_, ?_⟩ <;> decide
 
-/-- C06-alt-zero: `%#o` of 0 — ISO `0`, igris `00` -/
+/-- former finding C06-alt-zero, `%#o` of 0: ISO `0`; the old prefix `0` in
+front of the digit `0` gave `00`; the repaired code prints `0`, and `%#.0o`
+(no digit at all) still gets the `0` -/
 theorem printf_matches_iso_witness_alt_zero_o :
     isoFormat igrisPtr "%#o".toList [.int 0] = some "0".toList ∧
-    printf "%#o".toList [.int 0] = .done "00".toList 2 := by
-  constructor <;> decide
+    pfxOrig { spec := true } 8 = "0".toList ∧
+    printf "%#o".toList [.int 0] = .done "0".toList 1 ∧
+    printf "%#.0o".toList [.int 0] = .done "0".toList 1 := by
+  refine ⟨?_, ?_, ?_, ?_⟩ <;> decide
 
-/-- C06-c-nul: `%c` of NUL — ISO one character (the NUL), igris none -/
+/-- former finding C06-c-nul, `%c` of NUL: ISO one character (the NUL); print_s
+without OPS_SPEC_CHAR (`printCOrig`) measured it with strlen and emitted
+nothing; the repaired code emits it -/
 theorem printf_matches_iso_witness_c_nul :
     isoFormat igrisPtr "%c".toList [.int 0] = some [NUL] ∧
-    printf "%c".toList [.int 0] = .done [] 0 := by
+    printCOrig 0 0 0 {} = some ([], 0) ∧
+    printf "%c".toList [.int 0] = .done [NUL] 1 := by
+  refine ⟨?_, ?_, ?_⟩ <;> decide
+
+/-! ## the ISO reference itself: a second formulation, and its shape -/
+
+/-- digits by repeated division = `Nat.toDigits` (the two ways the two
+formulations obtain the digits of a value) -/
+theorem digits_by_division (base n : Nat) (hb : 2 ≤ base) :
+    digitsDiv base (n + 1) n = Nat.toDigits base n :=
+  digitsDiv_eq base hb (n + 1) n (Nat.lt_succ_self n)
+
+/-- `isoInt` (digits by `Nat.toDigits`, the octal `#` decided by looking at the
+first character, three text layouts) and `isoInt2` (SpecAlt.lean: digits by
+repeated division, every padding counted from lengths, the octal `#` decided
+from the value, one layout) are the same function — for every flag combination,
+width, precision, sign, magnitude, base ≥ 2 (upper case only with base 16) -/
+theorem iso_int_formulations_agree (minus plus space hash zero : Bool) (width : Nat) (prec : Option Nat)
+    (signedConv neg : Bool) (mag base : Nat) (upper : Bool) (hb : 2 ≤ base) (hup : upper = true → base = 16) :
+    isoInt2 minus plus space hash zero width prec signedConv neg mag base upper
+      = isoInt minus plus space hash zero width prec signedConv neg mag base upper :=
+  isoInt2_eq minus plus space hash zero width prec signedConv neg mag base upper hb hup
+
+/-- the length of a converted integer is max(field width, length of the
+conversion without a field width) -/
+theorem iso_int_length (minus plus space hash zero : Bool) (width : Nat) (prec : Option Nat)
+    (signedConv neg : Bool) (mag base : Nat) (upper : Bool) :
+    (isoInt minus plus space hash zero width prec signedConv neg mag base upper).length
+      = max width (isoInt minus plus space hash zero 0 prec signedConv neg mag base upper).length := by
+  rw [isoInt_layout, isoInt_layout, layoutS_length, layoutS_zero]
+  simp only [List.length_append]
+
+/-- order of the pieces: with `body1 ++ body2` the conversion without a field
+width (`body1` = sign and `0x`, `body2` = the digits), the field is
+`spaces · body1 · zeros · body2 · spaces`; the three paddings add up to
+`width - |body|`; `-` pads only on the right; zeros (the `0` flag) come after
+the sign/prefix, only without `-` and without a precision, and then there are
+no spaces -/
+theorem iso_int_shape (minus plus space hash zero : Bool) (width : Nat) (prec : Option Nat)
+    (signedConv neg : Bool) (mag base : Nat) (upper : Bool) :
+    ∃ (l z r : Nat) (body1 body2 : List Char),
+      isoInt minus plus space hash zero 0 prec signedConv neg mag base upper = body1 ++ body2 ∧
+      isoInt minus plus space hash zero width prec signedConv neg mag base upper
+        = List.replicate l ' ' ++ body1 ++ List.replicate z '0' ++ body2 ++ List.replicate r ' ' ∧
+      l + z + r = width - (body1 ++ body2).length ∧
+      (minus = true → l = 0 ∧ z = 0) ∧ (minus = false → r = 0) ∧
+      (z ≠ 0 → l = 0 ∧ zero = true ∧ prec = none) := by
+  obtain ⟨l, z, r, h1, h2, h3, h4, h5⟩ := layoutS_shape minus zero (prec = none) width
+    (specSign signedConv neg plus space ++
+      (if hash ∧ base = 16 ∧ mag ≠ 0 then (if upper then ['0', 'X'] else ['0', 'x']) else []))
+    (if hash ∧ base = 8 ∧ (specDigits prec mag base upper).head? ≠ some '0'
+      then '0' :: specDigits prec mag base upper else specDigits prec mag base upper)
+  refine ⟨l, z, r,
+    (specSign signedConv neg plus space ++
+      (if hash ∧ base = 16 ∧ mag ≠ 0 then (if upper then ['0', 'X'] else ['0', 'x']) else [])),
+    (if hash ∧ base = 8 ∧ (specDigits prec mag base upper).head? ≠ some '0'
+      then '0' :: specDigits prec mag base upper else specDigits prec mag base upper), ?_, ?_, ?_, h3, h4, ?_⟩
+  · rw [isoInt_layout, layoutS_zero]
+  · rw [isoInt_layout]; exact h1
+  · rw [List.length_append]; exact h2
+  · intro hz; obtain ⟨a, b, c⟩ := h5 hz; exact ⟨a, b, by simpa using c⟩
+
+/-! ## which formats ISO defines: the domain of `printf_matches_iso` -/
+
+/-- every format of the grammar `( text | % flags* width? precision? length?
+conversion )*` (Grammar.lean: generative, a directive is a record rendered to
+text) whose options are ones ISO defines for the conversion and whose argument
+list supplies the right types is in the domain of `isoFormat` -/
+theorem iso_defined_of_grammar (pfmt : Nat → List Char) (fmt : List Char) (args : List Arg)
+    (h : IsoDefined fmt args) : (isoFormat pfmt fmt args).isSome := by
+  obtain ⟨segs, hr, ha⟩ := h
+  subst hr
+  exact grammar_defined pfmt segs args ha _ (Nat.le_refl _)
+
+/-- hence, for every such format and argument list, `__printf` produces the ISO
+output and returns its length: the headline statement without a hypothesis
+about `isoFormat` -/
+theorem printf_iso_on_grammar (fmt : List Char) (args : List Arg) (h : IsoDefined fmt args) :
+    ∃ out, isoFormat igrisPtr fmt args = some out ∧ printf fmt args = .done out out.length := by
+  have hs := iso_defined_of_grammar igrisPtr fmt args h
+  cases ho : isoFormat igrisPtr fmt args with
+  | none => rw [ho] at hs; cases hs
+  | some out => exact ⟨out, rfl, printf_matches_iso fmt args out ho⟩
+
+/-! ## where the model's `Int` arithmetic is the code's `int` arithmetic -/
+
+/-- `if (width < 0) { …; width = -width; }` is computed in `int`: for every `*`
+argument except INT_MIN the 32-bit negation is the mathematical one the model
+(and ISO) uses -/
+theorem star_width_negation_exact (v : BitVec 32) (h : v ≠ BitVec.intMin 32) : (-v).toInt = -v.toInt :=
+  BitVec.toInt_neg_of_ne_intMin h
+
+/-- … and for INT_MIN it is not: the C expression overflows (undefined; two's
+complement wrap leaves the width negative), while the model continues with
+2^31 — the inputs `*` = INT_MIN are outside what the model says about the code
+(recorded finding C06-star-width-int-min) -/
+theorem star_width_int_min_witness :
+    (-(BitVec.intMin 32)).toInt = -2147483648 ∧ -(BitVec.intMin 32).toInt = 2147483648 ∧
+    getWidth ['*'] [.int (BitVec.intMin 32)] {} = some (2147483648, [], [], { left := true }) := by
+  refine ⟨?_, ?_, ?_⟩ <;> decide
+
+/-- a literal width or precision of at most 9 digits is below 10^9 < 2^31:
+`atoi` does not overflow and the model's value is the C value -/
+theorem literal_number_fits (s : List Char) (h : (s.takeWhile Char.isDigit).length ≤ 9) :
+    0 ≤ atoiDigits s 0 ∧ atoiDigits s 0 < 2 ^ 31 := by
+  obtain ⟨h0, h1⟩ := atoiDigits_lt s 0 9 (by omega) h
+  refine ⟨h0, ?_⟩
+  have : ((0 : Int) + 1) * 10 ^ 9 < 2 ^ 31 := by decide
+  omega
+
+/-- beyond: ten digits can exceed INT_MAX (C: `atoi` overflow, undefined) -/
+theorem literal_number_overflow_witness :
+    atoi "2147483647".toList = 2 ^ 31 - 1 ∧ atoi "2147483648".toList = 2 ^ 31 := by
   constructor <;> decide
 
 /-! ## %p: 0x followed by hex digits that parse back to the pointer -/
@@ -128,26 +253,36 @@ its first `precision` bytes: whatever lies behind `pre` is never consulted and
 the call succeeds when only `pre` is readable (a read behind the allocation is
 `none` in the model) -/
 theorem print_s_reads (pre rest : List Char) (width maxLen : Nat) (ops : Ops)
-    (h : NUL ∈ pre ∨ (ops.prec = true ∧ maxLen ≤ pre.length)) :
+    (h : (ops.chr = false ∧ (NUL ∈ pre ∨ (ops.prec = true ∧ maxLen ≤ pre.length))) ∨
+         (ops.chr = true ∧ pre ≠ [])) :
     (printS pre width maxLen ops).isSome ∧
       printS (pre ++ rest) width maxLen ops = printS pre width maxLen ops := by
   have hsome : (printS pre width maxLen ops).isSome := by
-    have hlen : (if ops.prec = true then strnlen pre (maxLen : Int).toNat else strlen pre).isSome := by
-      cases hp : ops.prec
-      · simp only [Bool.false_eq_true, if_false]
-        rcases h with h | ⟨h, _⟩
-        · exact strlen_some_of_mem pre h
-        · rw [hp] at h; cases h
-      · simp only [if_true, Int.toNat_natCast]
-        have hok : NUL ∈ pre.take maxLen ∨ maxLen ≤ pre.length := by
-          rcases h with h | ⟨_, h⟩
-          · by_cases hle : maxLen ≤ pre.length
-            · exact Or.inr hle
-            · left; rw [List.take_of_length_le (by omega)]; exact h
-          · exact Or.inr h
-        rw [strnlen_of_ok pre maxLen hok]; rfl
+    have hlen : (if ops.chr = true then (if 1 ≤ pre.length then some 1 else none)
+        else if ops.prec = true then strnlen pre (maxLen : Int).toNat else strlen pre).isSome := by
+      rcases h with ⟨hc, h⟩ | ⟨hc, hne⟩
+      · simp only [hc, Bool.false_eq_true, if_false]
+        cases hp : ops.prec
+        · simp only [Bool.false_eq_true, if_false]
+          rcases h with h | ⟨h, _⟩
+          · exact strlen_some_of_mem pre h
+          · rw [hp] at h; cases h
+        · simp only [if_true, Int.toNat_natCast]
+          have hok : NUL ∈ pre.take maxLen ∨ maxLen ≤ pre.length := by
+            rcases h with h | ⟨_, h⟩
+            · by_cases hle : maxLen ≤ pre.length
+              · exact Or.inr hle
+              · left; rw [List.take_of_length_le (by omega)]; exact h
+            · exact Or.inr h
+          rw [strnlen_of_ok pre maxLen hok]; rfl
+      · have : 1 ≤ pre.length := by
+          cases pre with
+          | nil => exact absurd rfl hne
+          | cons a as => simp
+        simp [hc, this]
     unfold printS
-    cases hl : (if ops.prec = true then strnlen pre (maxLen : Int).toNat else strlen pre) with
+    cases hl : (if ops.chr = true then (if 1 ≤ pre.length then some 1 else none)
+        else if ops.prec = true then strnlen pre (maxLen : Int).toNat else strlen pre) with
     | none => rw [hl] at hlen; cases hlen
     | some n => rfl
   refine ⟨hsome, ?_⟩
@@ -214,6 +349,97 @@ theorem vfdprintf_spec (limit : Option Nat) (err : Int) (fmt : List Char) (args 
       simp at h; exact ⟨h.1.symm, h.2.symm⟩
   · cases h
 
+/-- the variadic entry points only forward their argument list: `sprintf` is
+`vsprintf`, `fdprintf` is `vfdprintf`, `snprintf` is `vsnprintf` (each is
+`va_start; ret = v…(…, args); va_end; return ret;`), so the specifications
+carry over -/
+theorem sprintf_spec (fmt : List Char) (args : List Arg) (buf : List Char) (ret : Int)
+    (h : sprintf fmt args = some (buf, ret)) :
+    ∃ out, printf fmt args = .done out ret ∧ buf = out ++ [NUL] ∧ ret = out.length :=
+  vsprintf_spec fmt args buf ret h
+
+theorem fdprintf_spec (limit : Option Nat) (err : Int) (fmt : List Char) (args : List Arg)
+    (written : List Char) (ret : Int) (h : fdprintf limit err fmt args = some (written, ret)) :
+    ∃ out, printf fmt args = .done out out.length ∧
+      ((∀ l, limit = some l → out.length ≤ l) → written = out ∧ ret = out.length) ∧
+      (∀ l, limit = some l → l < out.length → written = out.take l ∧ ret = err) :=
+  vfdprintf_spec limit err fmt args written ret h
+
+/-- `vsprintf`/`sprintf` on a destination of known extent `mem`: the call is
+safe exactly when the output and its terminator fit (`|out| < |mem|`); then the
+memory is the output, a NUL, and the old bytes behind it; otherwise the callback
+stores behind the allocation (`none`) -/
+theorem vsprintf_mem_spec (mem fmt : List Char) (args : List Arg) (out : List Char) (pc : Int)
+    (h : printf fmt args = .done out pc) :
+    (out.length < mem.length →
+        vsprintfMem mem fmt args = some (out ++ NUL :: mem.drop (out.length + 1), (out.length : Int))) ∧
+    (mem.length ≤ out.length → vsprintfMem mem fmt args = none) := by
+  have hc := printf_count _ _ _ _ h
+  subst hc
+  rw [vsprintfMem_done mem fmt args out _ h]
+  constructor
+  · intro hl; rw [if_pos hl]
+  · intro hl; rw [if_neg (by omega)]
+
+/-- ISO C 7.21.6.5/7.21.6.12 for `vsnprintf(s, n, …)` on a destination `mem`
+that has at least the `n` bytes the caller announces: nothing is written when
+`n = 0`; otherwise the memory becomes the first `n-1` characters of the output,
+a NUL, and the OLD bytes behind that NUL (in particular everything from offset
+`n` on is untouched); the value returned is the length of the WHOLE output.
+The call never faults, however long the output is. -/
+theorem vsnprintf_spec (mem : List Char) (n : Nat) (fmt : List Char) (args : List Arg) (out : List Char) (pc : Int)
+    (h : printf fmt args = .done out pc) (hn : n ≤ mem.length) :
+    vsnprintf mem n fmt args
+      = some (if n = 0 then mem else out.take (n - 1) ++ NUL :: mem.drop (min (n - 1) out.length + 1),
+              (out.length : Int)) := by
+  have hc := printf_count _ _ _ _ h
+  subst hc
+  exact vsnprintf_done mem n fmt args out _ h hn
+
+/-- the same for the variadic `snprintf` -/
+theorem snprintf_spec (mem : List Char) (n : Nat) (fmt : List Char) (args : List Arg) (out : List Char) (pc : Int)
+    (h : printf fmt args = .done out pc) (hn : n ≤ mem.length) :
+    snprintf mem n fmt args
+      = some (if n = 0 then mem else out.take (n - 1) ++ NUL :: mem.drop (min (n - 1) out.length + 1),
+              (out.length : Int)) :=
+  vsnprintf_spec mem n fmt args out pc h hn
+
+/-- consequences a caller relies on: the extent of the memory is unchanged and
+no byte at offset `n` or beyond is modified -/
+theorem snprintf_stays_inside (mem : List Char) (n : Nat) (fmt : List Char) (args : List Arg) (out : List Char)
+    (pc : Int) (h : printf fmt args = .done out pc) (hn : n ≤ mem.length) :
+    ∃ buf : List Char, snprintf mem n fmt args = some (buf, (out.length : Int)) ∧ buf.length = mem.length ∧
+      buf.drop n = mem.drop n := by
+  rw [snprintf_spec mem n fmt args out pc h hn]
+  refine ⟨_, rfl, ?_, ?_⟩
+  · split
+    · rfl
+    · simp only [List.length_append, List.length_cons, List.length_take, List.length_drop]; omega
+  · split
+    · rfl
+    · rename_i hn0
+      have hk : (out.take (n - 1)).length = min (n - 1) out.length := by simp [List.length_take]
+      exact drop_after_term _ mem _ n hk (by omega)
+
+/-- ISO level: on every ISO-defined format `snprintf` leaves the ISO output,
+cut to `n-1` characters and terminated, and returns the untruncated length -/
+theorem snprintf_matches_iso (mem : List Char) (n : Nat) (fmt : List Char) (args : List Arg) (out : List Char)
+    (h : isoFormat igrisPtr fmt args = some out) (hn : n ≤ mem.length) (hpos : 0 < n) :
+    snprintf mem n fmt args
+      = some (out.take (n - 1) ++ NUL :: mem.drop (min (n - 1) out.length + 1), (out.length : Int)) := by
+  rw [snprintf_spec mem n fmt args out _ (printf_matches_iso fmt args out h) hn, if_neg (by omega)]
+
+/-- historical (before `fix: snprintf honours its size argument`): `snprintf`
+called `vsprintf` and ignored `maxlen` — `snprintf(buf, 4, "%d", 123456)` on a
+4-byte buffer stores behind it; the repaired code leaves `123\0` and returns 6.
+Already `snprintf(buf, 0, "")` wrote the terminator into a buffer of size 0. -/
+theorem snprintf_overflow_orig_witness :
+    snprintfOrig ['x', 'x', 'x', 'x'] 4 "%d".toList [.int 123456] = none ∧
+    snprintfOrig [] 0 [] [] = none ∧
+    snprintf ['x', 'x', 'x', 'x'] 4 "%d".toList [.int 123456] = some (['1', '2', '3', NUL], 6) ∧
+    snprintf [] 0 [] [] = some ([], 0) := by
+  refine ⟨?_, ?_, ?_, ?_⟩ <;> decide
+
 /-! ## non-vacuity: the hypotheses above are satisfiable on non-trivial inputs -/
 
 -- a format with literal text, flags, `*` width, precision, length modifier, string with precision
@@ -226,7 +452,38 @@ example : printf "a=%-*.3lld|%+05d|%.2s|%#x".toList
         [.int 8, .long (BitVec.ofInt 64 (-42)), .int 7, .str ['x', 'y', 'z'], .int 255]
       = .done "a=-042    |+0007|xy|0xff".toList 24 := by decide
 
--- print_s_reads: an unterminated two-byte array with precision 2
-example : (NUL ∈ ['a', 'b'] ∨ (({ prec := true } : Ops).prec = true ∧ 2 ≤ ['a', 'b'].length)) := by decide
+-- print_s_reads: an unterminated two-byte array with precision 2; the two-byte array of %c
+example : ((({ prec := true } : Ops).chr = false ∧
+    (NUL ∈ ['a', 'b'] ∨ (({ prec := true } : Ops).prec = true ∧ 2 ≤ ['a', 'b'].length))) ∨
+    (({ prec := true } : Ops).chr = true ∧ ['a', 'b'] ≠ [])) := by decide
+example : ((({ chr := true } : Ops).chr = false ∧
+    (NUL ∈ [NUL, NUL] ∨ (({ chr := true } : Ops).prec = true ∧ 2 ≤ [NUL, NUL].length))) ∨
+    (({ chr := true } : Ops).chr = true ∧ [NUL, NUL] ≠ [])) := by decide
+
+-- iso_int_formulations_agree / iso_int_length / iso_int_shape on `%#08x` of 255 and `%-+6.3d` of 7
+example : isoInt2 false false false true true 8 none false false 255 16 false = "0x0000ff".toList := by decide
+example : isoInt true true false false false 6 (some 3) true false 7 10 false = "+007  ".toList := by decide
+
+-- IsoDefined: `a=%-*.3lld|%+05d|%.2s|%#x` as pieces, with its arguments
+example : IsoDefined "a=%-*.3lld|%+05d|%.2s|%#x".toList
+    [.int 8, .long (BitVec.ofInt 64 (-42)), .int 7, .str ['x', 'y', 'z'], .int 255] :=
+  ⟨[.text ['a', '='],
+    .dir { flags := ['-'], width := .star, prec := .lit ['3'], len := .ll, conv := 'd' }, .text ['|'],
+    .dir { flags := ['+', '0'], width := .lit ['5'], prec := .none, len := .none, conv := 'd' }, .text ['|'],
+    .dir { flags := [], width := .none, prec := .lit ['2'], len := .none, conv := 's' }, .text ['|'],
+    .dir { flags := ['#'], width := .none, prec := .none, len := .none, conv := 'x' }], by decide, by decide⟩
+
+-- star_width_negation_exact / literal_number_fits
+example : (BitVec.ofInt 32 (-5)) ≠ BitVec.intMin 32 := by decide
+example : (("123456789|".toList).takeWhile Char.isDigit).length ≤ 9 := by decide
+
+-- vsnprintf_spec / snprintf_matches_iso: a truncating call
+example : printf "%s=%d".toList [.str ['a', 'b', NUL], .int 7] = .done "ab=7".toList 4 := by decide
+example : snprintf ['x', 'x', 'x', 'y', 'z'] 3 "%s=%d".toList [.str ['a', 'b', NUL], .int 7]
+      = some (['a', 'b', NUL, 'y', 'z'], 4) := by decide
+
+-- printf_matches_iso on the former finding classes
+example : isoFormat igrisPtr "[%#x|%#5o|%-3c]".toList [.int 0, .int 0, .int 0]
+      = some ['[', '0', '|', ' ', ' ', ' ', ' ', '0', '|', NUL, ' ', ' ', ']'] := by decide
 
 end Igris.C06
